@@ -5,6 +5,7 @@ alone (verdict + decoded pictures recorded); then ordered lists of 2-4 pool
 members are concatenated and validated; the verdict and the pictures of the
 concatenation must be exactly what the standalone executions predict.
 """
+import copy
 import itertools
 import random
 
@@ -16,7 +17,7 @@ PROPERTY = "C10"
 LEVEL = "exploration"
 TECHNIQUE = "runtime monitoring: validator verdict and picture callbacks on concatenations compared with the same sequences validated alone (relation between executions), pools mixing profiles, versions, levels, fragments, fields, numbering"
 RULE = (
-    "case = (pool seed, ordered list of pool indices); a pool has 12 sequences: 3 encoder-made from random recipes, 4 model-guided "
+    "case = (pool seed, ordered list of pool indices); a pool has up to 16 sequences: 3 encoder-made from random recipes, 4 *siblings* (one recipe and three re-encodings with exactly one attribute changed: chroma sampling, bit depth, wavelet, slice count, depth or matrix), 4 model-guided "
     "unit histories from random families (profiles, versions 1/2/3, level patterns 0/1/64/66, fragments, fields, numbering starts incl. "
     "wrap) 3 non-conformant single-edit neighbours and 2 targeted members (version-3 header over pictures needing less; a single field) that keep every parse_info and the final end_of_sequence; every "
     "ordered pair (with repetition) is enumerated per pool, plus sampled lists of length 3 and 4; distinct = distinct (pool, list); "
@@ -37,7 +38,7 @@ def setup(ctx):
     U.install_permissive_levels()
 
 
-POOL_SIZE = 12
+POOL_SIZE = 16
 
 
 def plan(tier, seed):
@@ -107,9 +108,46 @@ def build_pool(pseed, ctx):
         o = pipeline.run(r)
         if o.stage == "done":
             members.append({"kind": "encoder:" + configs.stratum(r), "data": o.data})
+    # siblings: the first encoder-made member re-encoded with exactly one attribute changed (same luma size, transform
+    # and slicing but other chroma sampling / bit depth / wavelet / slice count ...): anything the validator remembers
+    # under too coarse a key, or fails to reset, shows when siblings follow each other
+    base = configs.random_recipe(rng, {"maxw": 8, "maxh": 8, "max_slices": (2, 2), "max_dwt": 2})
+    base["w"], base["h"] = 8, 8
+    base["pics"]["n"] = 2 if base["pcm"] else 1
+    sib = []
+    for attr in rng.sample(["cdf", "cdf", "range", "wi", "slices", "d", "qm"], 3):
+        r = copy.deepcopy(base)
+        if attr == "cdf":
+            r["cdf"] = rng.choice([c for c in (0, 1, 2) if c != base["cdf"]])
+        elif attr == "range":
+            r["range"] = [0, 1023, 512, 1023] if (base.get("range") or [0, 255])[1] != 1023 else [0, 255, 128, 255]
+        elif attr == "wi":
+            r["wi"] = r["wih"] = (base["wi"] + 1) % 7
+            r["dh"] = 0
+        elif attr == "slices":
+            r["sx"] = 1 if base["sx"] == 2 else 2
+        elif attr == "d":
+            r["d"] = 1 if base["d"] != 1 else 2
+            r["dh"] = 0
+        elif attr == "qm":
+            r["qm"] = configs.random_matrix(rng, r["d"], r["dh"])
+        if r.get("qm") is None and not configs.has_default_matrix(r["wi"], r["wih"], r["d"], r["dh"]):
+            r["qm"] = configs.random_matrix(rng, r["d"], r["dh"])
+        elif r.get("qm") is not None and attr in ("wi", "d"):
+            r["qm"] = configs.random_matrix(rng, r["d"], r["dh"])
+        if not r["lossless"]:
+            n = r["sx"] * r["sy"]
+            r["pb"] = n * 40
+        sib.append((attr, r))
+    if not base["lossless"]:
+        base["pb"] = base["sx"] * base["sy"] * 40
+    for attr, r in [("base", base)] + sib:
+        o = pipeline.run(r)
+        if o.stage == "done":
+            members.append({"kind": "sibling:" + attr, "data": o.data})
     names = sorted(U.FAMILIES)
     walks = []
-    while len(members) < 7:
+    while len(members) < 11:
         name = rng.choice(names)
         fam, m = c01.fam_model(name)
         hist = c01.guided_walk(rng, fam, m, rng.choice([4, 6, 9]))
@@ -119,7 +157,7 @@ def build_pool(pseed, ctx):
         members.append({"kind": "history:" + name, "data": data})
         walks.append((fam, hist))
     tries = 0
-    while len(members) < 10 and tries < 200:
+    while len(members) < 14 and tries < 200:
         tries += 1
         fam, hist = rng.choice(walks)
         h = _framing_intact_neighbour(rng, fam, hist)
@@ -162,6 +200,7 @@ def run_case(case, ctx):
         _pools[pseed] = build_pool(pseed, ctx)
     pool = _pools[pseed]
     for idxs in case["lists"]:
+        idxs = [i % len(pool) for i in idxs]
         ms = [pool[i] for i in idxs]
         if not all(m["usable"] for m in ms):
             ctx.count("lists_skipped_unusable_member")
